@@ -1,0 +1,16 @@
+//go:build verif
+
+package directive
+
+import "github.com/roddhjav/apparmor.d/pkg/util"
+
+func VerifRegex() map[string][][2]string {
+	return map[string][][2]string{
+		"regDirective":        {{regDirective.String(), ""}},
+		"regRules":            {{regRules.String(), ""}},
+		"regEndOfRules":       {{regEndOfRules.String(), ""}},
+		"regCleanStakedRules": util.VerifList(regCleanStakedRules),
+	}
+}
+
+func VerifFilterRuleForUs(opt *Option) bool { return filterRuleForUs(opt) }
